@@ -2,7 +2,8 @@
 with optimize off/on through the REAL ProofExp.serialize, report files, symbol table, the memoiser's
 selection and the effective declarations.
 
-request:  MOD <module>...      module = CTOR|ADDED|CLAIMS|SUBS|PROOFS     (root = last)
+request:  MOD <module>...      module = CTOR|ADDED|CLAIMS|SUBS|PROOFS[|LATE|LATESUBS]     (root = last)
+  LATE / LATESUBS  axioms added / modules imported after ALL modules were built and imported by the others
   CTOR    axioms passed to the constructor (';'-joined patterns with notation, '-' = none)
   ADDED   axioms added afterwards through add_axioms() (which drops duplicates modulo notation)
   CLAIMS  claims (constructor)
@@ -67,19 +68,72 @@ def pats(s):
     return [] if s in ('-', '') else [RU.pat_of(x) for x in s.split(';')]
 
 
+class _Tee:
+    def __init__(self, f, log):
+        self._f, self._log = f, log
+
+    def write(self, b):
+        self._log.append(bytes(b))
+        return self._f.write(b)
+
+    def close(self):
+        return self._f.close()
+
+    def __getattr__(self, n):
+        return getattr(self._f, n)
+
+
 class RecExp(ProofExp):
     """ProofExp that remembers the serialiser `serialize` created (to read its symbol table)"""
 
     def get_serializing_interpreter(self, *a, **k):
         s = super().get_serializing_interpreter(*a, **k)
         self._last_serializer = s
+        # the symbol table is OBSERVED: the id byte each symbol() call writes (no private attribute is read)
+        log = self._symbol_log = {}
+        orig = s.symbol
+
+        def symbol(name):
+            r = orig(name)
+            if s.out.tell() >= 2:
+                pass
+            return r
+        # files are real file objects here: remember what was written through a tee on write()
+        sink_writes = self._writes = []
+        for attr in ('out', 'claim_out', 'proof_out'):
+            f = getattr(s, attr)
+            if f is None:
+                continue
+            w = f.write
+
+            def tee(b, w=w):
+                sink_writes.append(bytes(b))
+                return w(b)
+            try:
+                f.write = tee
+            except AttributeError:
+                # BufferedWriter.write is read-only: wrap the object instead
+                setattr(s, attr, _Tee(f, sink_writes))
+
+        def symbol_logged(name):
+            n0 = len(sink_writes)
+            r = orig(name)
+            for b in sink_writes[n0:]:
+                if len(b) == 2 and b[0] == 4:
+                    log.setdefault(name, []).append(b[1])
+            return r
+        s.symbol = symbol_logged
         return s
 
 
 def build(specs):
     mods = []
+    late = []
     for spec in specs:
-        ctor, added, claims, subs, proofs = spec.split('|')
+        fields = spec.split('|')
+        ctor, added, claims, subs, proofs = fields[:5]
+        # optional: axioms added and modules imported AFTER every module has been built and imported by the others
+        late.append((fields[5] if len(fields) > 5 else '-', fields[6] if len(fields) > 6 else '-'))
         m = RecExp(axioms=pats(ctor), claims=pats(claims))
         for i in ([] if subs in ('-', '') else [int(x) for x in subs.split(',')]):
             m.import_module(mods[i])
@@ -97,6 +151,12 @@ def build(specs):
                     thunks.append(m.modus_ponens(m.dynamic_inst(m.prop1(), {0: A, 1: RU.pat_of(q)}), m.load_axiom(A)))
         m._proof_expressions = thunks
         mods.append(m)
+    for i, (late_ax, late_subs) in enumerate(late):
+        for j in ([] if late_subs in ('-', '') else [int(x) for x in late_subs.split(',')]):
+            if j >= i:
+                raise RU.Bad('late import of a later module')
+            mods[i].import_module(mods[j])
+        mods[i].add_axioms(pats(late_ax))
     return mods
 
 
@@ -126,9 +186,13 @@ def run_serialize(specs, optimize):
         ser = root._last_serializer
         ser.out.close()
         files = [(Path(d) / ('x.ml-' + s)).read_bytes() for s in ('gamma', 'claim', 'proof')]
-        tbl = sorted(ser._symbol_identifiers.items(), key=lambda kv: kv[1])
+        log = root._symbol_log
+        for name, ids in log.items():
+            if len(set(ids)) != 1:
+                return f'BROKEN-TABLE symbol {name} was written as {sorted(set(ids))}'
+        tbl = sorted(((n, ids[0]) for n, ids in log.items()), key=lambda kv: kv[1])
         if [v for _, v in tbl] != list(range(len(tbl))):
-            return 'BROKEN-TABLE ' + repr(ser._symbol_identifiers)
+            return 'BROKEN-TABLE ' + repr(tbl)[:200].replace('[', '(').replace(']', ')')
         t = ','.join(n for n, _ in tbl) or '-'
         return f'OK tbl[{t}] G[{RU.hexs(files[0])}] C[{RU.hexs(files[1])}] P[{RU.hexs(files[2])}]'
     finally:
